@@ -53,7 +53,7 @@ where
             if caps.nrforms > 0 {
                 modes.push(0);
             }
-            if caps.resreg && !caps.is_stack {
+            if caps.resreg {
                 modes.push(1);
             }
             modes.push(2);
@@ -257,6 +257,11 @@ where
                     let ok = alloc::with_owner(1, || tgt.reserve_regions(&[&src]));
                     if !ok {
                         return None;
+                    }
+                    if caps.is_stack {
+                        // FlatStack::reserve_regions sizes the region only; the index container is
+                        // announced through FlatStack::reserve
+                        alloc::with_owner(1, || tgt.stack_reserve(batch.len()));
                     }
                     srcs.push(src);
                     out.hit("presize_by_reserve_regions");
